@@ -154,3 +154,5 @@ def run(ctx):
     c12.rule_validation_pipeline(ctx, P, r)
     r.require_min(8)
     ctx.borrow('c12', ['R12a'], 'the forced check relies on the exact index test of the metadata verifier')
+    ctx.borrow('c10', ['R10b'], 'the forced check relies on the verifier raising the mismatch flag')
+    ctx.borrow('c03', ['R03c'], 'rebuilt fragments must carry the instance checksum type, or later damage to them passes the forced check')
